@@ -1,9 +1,10 @@
 (* Extraction of the executable C14 model (ExtrOcamlBasic only). *)
 From Coq Require Import ExtrOcamlBasic.
 From Coq Require Extraction.
-From LJT Require Import model.MemMgr model.TjInit model.DestBuf model.VirtAccess model.MemCfg gen.GenMemConst.
+From LJT Require Import model.MemMgr model.TjInit model.DestBuf model.VirtAccess model.TjAlloc model.MemCfg gen.GenMemConst gen.GenTjAlloc.
 Extraction Language OCaml.
 Extraction "x_c14.ml" gen_cfg step64 init_st align_simd align_nosimd
   pixels_rejected_src scan_rejected_src max_memory_to_use_of tjinit_src tjinit_handler_destroys
   final dcfg_tj dcfg_ljpeg
-  va_realize access write_rows load_rows sample_size rup.
+  va_realize access write_rows load_rows sample_size rup
+  acq_count tj_progs tj_nonmalloc.
